@@ -33,6 +33,7 @@ def cases(draw, tier):
         case['mismatch'] = draw(st.integers(0, 9)) == 0
     if form == 'add':
         case['host'] = draw(arith.hosts(min_inputs=1, max_inputs=6, max_gates=8))
+        case['host_route'] = draw(arith.gen.routes(case['host']))
         case['p1'] = arith.operand_picks(draw, 12, allow_repeat=kind != 'plus_one')
         case['p2'] = arith.operand_picks(draw, 12, allow_repeat=True)
         case['p3'] = arith.operand_picks(draw, 12, allow_repeat=True)
@@ -122,7 +123,7 @@ def check_arith(case):
             nrows = 1 << len(res['inputs'])
         else:
             host = case['host']
-            c = build.build(host)
+            c = build.build(host, case.get('host_route'))
             before = wellformed.snapshot(c)
             pats, mask = refsem.full_patterns(len(host['inputs']))
             t0 = refsem.tables(host, pats, mask)
